@@ -131,7 +131,7 @@ func kindOf(lex []reflex.Lexeme, i int, skipNL bool) string {
 
 // Transformation names, in the order of the property's list.
 var transformations = []string{"crlf", "lf", "indent-none", "indent-tab", "indent-blanks", "trailing-blanks",
-	"blank-line", "blank-line-ws", "comment-line", "block-comment-line", "final-nl-absent", "final-nl-present",
+	"blank-line", "comment-line", "block-comment-line", "final-nl-absent", "final-nl-present",
 	"block-comment", "line-comment", "remove-blank", "add-blank"}
 
 func findSites(src string, lex []reflex.Lexeme) []site {
@@ -174,7 +174,6 @@ func findSites(src string, lex []reflex.Lexeme) []site {
 			add("line-comment", k, i, edit{l.Off, 0, " // c"}, false, false)
 			after := l.Off + len(l.Text)
 			add("blank-line", k, i+1, edit{after, 0, eol}, true, false)
-			add("blank-line-ws", k, i+1, edit{after, 0, " \t" + eol}, true, false)
 			add("comment-line", k, i+1, edit{after, 0, "// c" + eol}, true, false)
 			add("block-comment-line", k, i+1, edit{after, 0, "/* c */" + eol}, true, false)
 			lineStart(i + 1)
@@ -327,6 +326,35 @@ func keyFor(sites []site, symptom, tg string) string {
 	return fmt.Sprintf("t=%s sites=%s symptom=%s targets=%s", strings.Join(drive.SortedKeys(ts), "+"), strings.Join(drive.SortedKeys(ks), " & "), symptom, tg)
 }
 
+// ------------------------------------------------------------------- guard
+
+// guardKey names the one known defect that poisons a whole region of the variant
+// space: the repository's lexer ends a block comment at the LAST "*/" of the file
+// (greedy match), so everything between a block comment and any later "*/" is
+// swallowed. While that line is listed in KNOWN_FINDINGS.txt, variants inside the
+// region are not fed to the sweep (they would fail in hundreds of site-kind
+// combinations that say nothing new); a sentinel reproduces the defect instead.
+// When the line is not listed, or the sentinel no longer fails, the region is
+// swept like any other.
+const guardKey = "guard=block-comment-before-a-later-comment-terminator symptom=code-between-swallowed"
+
+// inGreedyRegion: the text contains a block comment that is followed, anywhere
+// later in the file, by the two characters "*/".
+func inGreedyRegion(text string) bool {
+	if strings.Count(text, "*/") < 2 {
+		return false
+	}
+	for _, l := range reflex.Lex(text).Lexemes {
+		if l.Type == reflex.Comment && strings.HasPrefix(l.Text, "/*") && strings.Contains(text[l.Off+len(l.Text):], "*/") {
+			return true
+		}
+	}
+	return false
+}
+
+const sentinelBase = "print(1)\nprint(2)\n"
+const sentinelVariant = "/* c */print(1)\n/* c */print(2)\n"
+
 // ---------------------------------------------------------------- the check
 
 type finding struct {
@@ -355,6 +383,8 @@ type checker struct {
 	overlap   int64
 	harness   atomic.Value
 	sampleCtr int64
+	guardOn   bool
+	guarded   int64
 }
 
 type item struct {
@@ -422,6 +452,10 @@ func (c *checker) evalItem(it item) {
 		c.bump(c.notPres, tname)
 		return
 	}
+	if c.guardOn && inGreedyRegion(text) {
+		atomic.AddInt64(&c.guarded, 1)
+		return
+	}
 	atomic.AddInt64(&c.evals, 1)
 	c.distinct.Add(p.name + "\x00" + text)
 	symptom, tg, res := p.judge(text)
@@ -458,7 +492,7 @@ func (c *checker) evalItem(it item) {
 		for i := 0; i < len(min); {
 			cand := append(append([]site{}, min[:i]...), min[i+1:]...)
 			ct, ok := apply(p.src, cand)
-			if ok && ct != p.src && p.preserved(ct, cand) {
+			if ok && ct != p.src && p.preserved(ct, cand) && !(c.guardOn && inGreedyRegion(ct)) {
 				if s2, t2, _ := p.judge(ct); s2 == symptom && t2 == tg {
 					min, minText = cand, ct
 					continue
@@ -596,6 +630,33 @@ func Run() int {
 		c.progs = append(c.progs, p)
 	}
 
+	// ---- guard sentinel
+	{
+		sp := &pinfo{prog: prog{name: "sentinel", src: sentinelBase}}
+		lr := reflex.Lex(sentinelBase)
+		sp.lex, sp.baseToks = lr.Lexemes, tokens(lr)
+		for k, t := range targets {
+			sp.base[k] = drive.TranspileSrc(sentinelBase, t)
+		}
+		if !equalToks(sp.baseToks, tokens(reflex.Lex(sentinelVariant))) {
+			fmt.Fprintln(os.Stderr, "HARNESS ERROR: sentinel variant is not token-preserving")
+			return 2
+		}
+		sym, tg, _ := sp.judge(sentinelVariant)
+		sym2, tg2, _ := sp.judge(sentinelVariant)
+		if sym != sym2 || tg != tg2 {
+			fmt.Fprintln(os.Stderr, "HARNESS ERROR: sentinel not repeatable")
+			return 2
+		}
+		if sym != "" {
+			r.Fail(guardKey, fmt.Sprintf("two block comments in one file: base %q, variant %q: %s on %s (the lexer's block-comment pattern is greedy and swallows the code between the first comment and the last \"*/\")", sentinelBase, sentinelVariant, sym, tg), func() findings.Replay {
+				return findings.Replay{Files: map[string]string{"base/main.tsh": sentinelBase, "variant/main.tsh": sentinelVariant}, Script: replayScript("bash")}
+			})
+			c.guardOn = r.IsKnown(guardKey)
+		}
+		r.Set("guard_active", c.guardOn)
+	}
+
 	// ---- phase 1: deviation 1, all-at-once per transformation, whole-file styles
 	heavyMs := 8.0
 	var items []item
@@ -646,6 +707,32 @@ func Run() int {
 		}
 	}
 	nPhase1 := len(items)
+	{
+		// where the time goes: estimated cost per program = base cost x work items
+		perProg := map[int]int{}
+		for _, it := range items {
+			perProg[it.p]++
+		}
+		type row struct {
+			name string
+			est  float64
+		}
+		var rows []row
+		tot := 0.0
+		for pi, n := range perProg {
+			e := c.progs[pi].costMs * float64(n) * 2 / 1000
+			rows = append(rows, row{fmt.Sprintf("%s (%.1f ms x %d items)", c.progs[pi].name, c.progs[pi].costMs, n), e})
+			tot += e
+		}
+		sort.Slice(rows, func(i, j int) bool { return rows[i].est > rows[j].est })
+		top := []string{}
+		for i := 0; i < len(rows) && i < 8; i++ {
+			top = append(top, fmt.Sprintf("%.0fs %s", rows[i].est, rows[i].name))
+		}
+		r.Set("estimated_cpu_s_phase1", int(tot))
+		r.Set("costliest_programs", top)
+		fmt.Fprintf(os.Stderr, "C12: %d programs, %d phase-1 work items, estimated %.0f CPU-s; top: %v\n", len(c.progs), len(items), tot, top)
+	}
 	c.runItems(items)
 	phase1Complete := !c.capHit.Load()
 
@@ -717,6 +804,7 @@ func Run() int {
 	r.Set("variants_by_phase_and_transformation", c.perT)
 	r.Set("variants_rejected_by_reference_lexer_as_not_token_preserving", c.notPres)
 	r.Set("overlapping_edit_pairs_skipped", int(c.overlap))
+	r.Set("guarded_variants_not_judged", int(c.guarded))
 	r.Set("outcomes", c.outcomes)
 	r.Set("distinct_outcomes", len(c.outcomes))
 	r.Set("site_cells_reached", len(c.cells))
